@@ -140,7 +140,7 @@ CUSTOM_ORDERED = ["ew_gt", "vec_ge", "strat_le", "ext_ge"]
 STR_CHECKS = ["eq", "ne", "isin", "notin", "str_matches", "str_contains", "str_startswith", "str_endswith",
               "str_length"]
 # checks whose strategy is defined (built-in or supplied); the others fall back to filtering
-NO_STRATEGY = ("ew_gt", "vec_ge")
+NO_STRATEGY = ("ew_gt", "vec_ge", "vec_count")
 
 
 class _Fn:
@@ -157,6 +157,8 @@ class _Fn:
             return x >= self.v
         if self.op == "le":
             return x <= self.v
+        if self.op == "count_ge":  # whole-series statement: at least v non-null values
+            return bool(x.count() >= self.v)
         raise AssertionError(self.op)
 
 
@@ -223,6 +225,8 @@ def check_args(spec, tag):
         return {"v": cv(spec["v"])}
     if c == "ext_ge":
         return {"min_value": cv(spec["v"])}
+    if c == "vec_count":
+        return {"k": spec["k"]}
     raise KeyError(c)
 
 
@@ -235,6 +239,8 @@ def mk_check(spec, tag):
         return pa.Check(_Fn("gt", kw["v"]), element_wise=True, name="c13_ew_gt")
     if c == "vec_ge":
         return pa.Check(_Fn("ge", kw["v"]), name="c13_vec_ge")
+    if c == "vec_count":
+        return pa.Check(_Fn("count_ge", kw["k"]), name="c13_vec_count")
     if c == "strat_le":
         return pa.Check(_Fn("le", kw["v"]), name="c13_strat_le", strategy=_le_strategy_factory(kw["v"]))
     if c == "ext_ge":
@@ -248,6 +254,8 @@ def mk_check(spec, tag):
 def predicate(spec, tag):
     """element predicate of a check, in plain Python."""
     c = spec["c"]
+    if c == "vec_count":
+        return lambda x: True  # a statement about the series as a whole: no element is excluded by it
     kw = check_args(spec, tag)
     if c == "eq":
         return lambda x: x == kw["value"]
@@ -290,7 +298,7 @@ def predicate(spec, tag):
 def check_arg_values(spec, tag):
     """all concrete element-like values mentioned by a check (anchors for candidate witnesses)."""
     c = spec["c"]
-    if c == "str_length" or c in ("str_matches", "str_contains"):
+    if c == "str_length" or c in ("str_matches", "str_contains") or c == "vec_count":
         return []
     kw = check_args(spec, tag)
     out = []
